@@ -555,7 +555,8 @@ func (c *Ctx) validateSample(job SymJob, rep *gosym.Report) {
 	rf := ReplayFile{Property: c.ID, Key: "sample", What: "validation of an explored path", Entry: job.Entry, Args: job.Args, Spec: job.Replay, Model: sample.Model, Inputs: inputs}
 	dir := filepath.Join(VerifDir, "replays", c.ID)
 	os.MkdirAll(dir, 0o755)
-	path := filepath.Join(dir, "validated_"+sanitize(job.Name)+".json")
+	// unique per process: two runs of the same check (e.g. against two trees) must not share it
+	path := filepath.Join(dir, fmt.Sprintf("validated_%d_%s.json", os.Getpid(), sanitize(job.Name)))
 	WriteJSON(path, rf)
 	status, msg := NativeReplay(&rf, path)
 	switch status {
